@@ -210,3 +210,16 @@ CHECKS['C19'] = dict(level='other',
         'epsilon comparisons). Known finding: the explicit-gamma overloads are discontinuous (not monotone, encoder leaves [0, 1]) for gamma away from 2.4. Level "other": mixed structural rule set.',
    technique='polynomial / term normal forms of composed kernels over instantiated LLVM IR; structural extraction of curve parameters and writer/reader constant agreement; partial evaluation of constants')
 NOT_APPLICABLE.pop('C19', None)
+
+CHECKS['C20'] = dict(level='other',
+   text='Obligation inventory over the anchored files: abs, sign, bitfieldExtract/Insert/Reverse, bitCount, findLSB/MSB, mask, rotate, fill, the power-of-two and multiple families (int, uint, int8, uint64; all sized types in the '
+        'thorough tier), carry/borrow/extended multiply, interleave, roundEven, round, iround, uround, mod, frexp/ldexp, bit casts, lowp inversesqrt, all pack functions and a set of unpack functions, component access with a run-time '
+        'index, integer vector operators, bool loads — each instantiated with -fsanitize=signed-integer-overflow,shift,float-cast-overflow,integer-divide-by-zero,bounds,bool,enum as traps. Every check that survives -O2 is a proof '
+        'obligation with its exact reachability condition over the inputs; it is discharged by interval abstract interpretation inside the function\'s documented input box (shift counts 0..width-1, bit counts 0..width, '
+        'offset + bits <= width, multiples >= 1, finite floats ...), or refuted by an explicit in-box input at which the condition evaluates to true, or tabled as the caller\'s own arithmetic (integer vector operators only).',
+   note='Decides: no sanitizer-observable UB of the instrumented kinds inside the boxes for the functions listed; a removed guard (clamp before a conversion, the width test of mask, a mask before a shift) resurrects its obligation and '
+        'is refuted by a boundary witness. Not decided: UB kinds UBSan does not instrument (aliasing, uninitialised reads, library calls such as std::abs(INT_MIN)), address-sanitizer classes beyond -fsanitize=bounds, independence of the '
+        'optimisation level as such, the SIMD paths, functions with loops (toFloat32 in unpackHalf, findNSB), variable-index matrix/quaternion access (engine limitation), 1 << findMSB(x) in floor/prev/roundPowerOfTwo (needs the bit-count '
+        'bound), packF3x9_E1x5, overflow of the multiples / powers of two near the type limits (boxes stop at a quarter of the range). Five defects were found and repaired (sign, findLSB, mask, bitfieldInsert on signed types; roundEven beyond 2^31).',
+   technique='sanitizer instrumentation used statically: UBSan trap blocks in optimised LLVM IR as proof obligations; path conditions by abstract interpretation; interval domain with conjunct-wise refinement; witness evaluation of the condition term')
+NOT_APPLICABLE.pop('C20', None)
